@@ -1,6 +1,8 @@
 (* Base definitions shared by all model files: bytes, big-endian values, checked results. *)
 From Coq Require Export NArith ZArith List Bool Lia.
 From Coq Require String.
+Export String.StringSyntax.
+Delimit Scope string_scope with string.
 Notation string := String.string.
 Export ListNotations.
 Local Open Scope N_scope.
